@@ -240,7 +240,11 @@ func (p *Proof) UnmarshalJSON(data []byte) error {
 	const fpSize = 32
 	proofBytes := make([]byte, 8*fpSize)
 	for i := 0; i < 8; i++ {
-		copy(proofBytes[i*fpSize:(i+1)*fpSize], proofInts[i].Bytes())
+		if proofInts[i].Sign() < 0 || proofInts[i].BitLen() > 8*fpSize {
+			return fmt.Errorf("proof element out of range: %s", proofHexNumbers[i])
+		}
+		// right-align: elements shorter than fpSize bytes need leading zeros
+		proofInts[i].FillBytes(proofBytes[i*fpSize : (i+1)*fpSize])
 	}
 
 	p.Proof = groth16.NewProof(ecc.BN254)
